@@ -363,6 +363,8 @@ def specs(prop='C15'):
         env.vars.update(asts=asts, back=case['back'], scope=case['scope'], self=SObj('self', {}), all=True,
                         check_all_param=lambda f: True, self_=True)
         it.exec_block(blk.body, env)
+        if 'stack' not in env.vars or 'self_' not in env.vars:
+            raise LookupError('the asts set-up no longer defines `stack` / `self_` (locals renamed?)')
         stack = env.vars.get('stack')
         ctx.notes['outcome'] = 'return'
         ctx.prove(f'{pre}.work_list_is_new[{label}]', isinstance(stack, list) and stack is not asts)
